@@ -256,6 +256,17 @@ def step(draw, info: Info, kinds):
         if e == "env" and info.kind[t] == "custom":
             e = "state"
         return dict(k="op", entry=e, targets=[t], op=draw(op_for_kind(info.kind[t])))
+    if k == "bigop":
+        focks = [s for s in subs if info.kind[s] == "fock"]
+        t = draw(st.sampled_from(focks))
+        e = entry_for([t])
+        op = draw(st.one_of(
+            st.builds(lambda a: dict(type="fock:Displace", params=dict(alpha=a)), small_c),
+            st.builds(lambda z: dict(type="fock:Squeeze", params=dict(zeta=[0.6 * z[0], 0.6 * z[1]])), small_c),
+            st.builds(lambda t_: dict(type="fock:Expresion", params=dict(phi=t_)), angle),
+            st.just(dict(type="fock:Creation")), st.just(dict(type="fock:Annihilation")),
+            st.builds(lambda t_: dict(type="fock:PhaseShift", params=dict(phi=t_)), angle)))
+        return dict(k="op", entry=e, targets=[t], op=op)
     if k == "comp":
         s_ = comp_op(info, mem) if ce else None
         if s_ is None:
@@ -306,6 +317,7 @@ def step(draw, info: Info, kinds):
             d.update(sep=draw(st.booleans()), destructive=draw(st.booleans()), script=draw(st.lists(st.integers(0, 5), min_size=0, max_size=6)))
         if k == "povm":
             d.update(pseed=draw(seeds), nops=draw(st.integers(2, 4)), projective=draw(st.booleans()), destructive=draw(st.booleans()),
+                     partial=draw(st.booleans()),
                      script=draw(st.lists(st.integers(0, 5), min_size=0, max_size=4)))
         return d
     if k == "resize":
